@@ -98,6 +98,7 @@ c08.append(job("receive-fails-hard",".","VH_ClientSendFail",["C08/"],{"recvfail"
 C["C08"]={"jobs":c08,"assumptions":CLIENT_ASSUME,"outside":["the real kernel and socket","more than 2 unsolicited records per wait","Receive returning several messages at once","rule payloads longer than 3-4 bytes (content is only copied)"]}
 C["C16"]={"jobs":[job("setters",".","VH_ClientSetters",["C16/"],{},Q,bounds="7 setters x both wait modes with full-range symbolic arguments (uint32/int32/bool/FailureMode), GetStatus request"),
    job("setters-after-getstatus",".","VH_ClientSetters",["C16/"],{"afterget":1},Q,bounds="as setters, after a GetStatus answered with 32/36/40/44 bytes on the same client"),
+   job("many-nowait-setters",".","VH_ClientManyNoWait",["C16/"],{"count":40},Q,bounds="40 NoWait setters in a row on one client: each request is AUDIT_SET with REQUEST|ACK and a full-size payload"),
    job("setters-recv-error",".","VH_ClientSetters",["C16/"],{"recvfail":1},Q,bounds="as setters, with the 1st or 2nd Receive of the call failing with ENOBUFS/EBADF/ECONNREFUSED: still exactly one well-formed request"),
    job("constants",".","VH_Constants",["C16/"],{},Q,bounds="closed terms: exported constants against UAPI values (linux/audit.h)"),
    job("wire-0-64",".","VH_StatusWire",["C16/"],{"maxlen":64},Q,bounds="FromWireFormat: every buffer length 0..64 with symbolic contents, receiver pre-filled with symbolic garbage"),
@@ -105,6 +106,7 @@ C["C16"]={"jobs":[job("setters",".","VH_ClientSetters",["C16/"],{},Q,bounds="7 s
    "assumptions":CLIENT_ASSUME+["UAPI constants transcribed from /usr/include/linux/audit.h of this image (see harness constants vUAPI_*)"],"outside":["the live kernel"]}
 C["C17"]={"jobs":[job("history-k3",".","VH_ClientHistory",["C17/"],{"k":3},QO,bounds="histories of 3 operations from {setter NoWait, SetPID NoWait, setter WaitForReply, WaitForPendingACKs, GetRules, Close}, kernel errno per request symbolic"),
    job("history-k4",".","VH_ClientHistory",["C17/"],{"k":4},Q,bounds="histories of 4 operations"),
+   job("many-nowait-setters",".","VH_ClientManyNoWait",["C17/"],{"count":40},Q,bounds="40 NoWait setters in a row, then WaitForPendingACKs: every ACK consumed exactly once"),
    job("history-k3-sendfail",".","VH_ClientHistory",["C17/"],{"k":3,"sendfail":1},Q,bounds="histories of 3 operations in which a NoWait setter's Send may fail, or the clear-PID Send inside Close: no ACK is awaited for it, the socket is closed all the same"),
    job("history-k4-sendfail",".","VH_ClientHistory",["C17/"],{"k":4,"sendfail":1},T,bounds="histories of 4 operations with failing NoWait Sends"),job("history-k5",".","VH_ClientHistory",["C17/"],{"k":5},T,bounds="histories of 5 operations"),
    job("close-2threads",".","VH_ClientCloseConcurrent",["C17/"],{"threads":2,"preemptions":3},Q,no_native=True,bounds="Close from 2 goroutines at once (with and without a prior SetPID), every interleaving at synchronisation operations with at most 3 preemptions, race detection"),
@@ -194,6 +196,7 @@ c20=[job("types-unnamed","auparse","VH_TypeRoundTrip",["C20/"],{"range":1},Q,bou
      job("rule-tables","rule","VH_RuleTables",["C20/"],{},Q,bounds="every field/operator/comparison entry, reverse arch and reverse syscall tables (exhaustive, concrete)",max_steps=80000000)]
 c20.append(job("norm-tables","aucoalesce","VH_NormTables",["C20/"],{},Q,bounds="every record type and syscall named in the normalisation tables (table image of the current normalizations.yaml), exhaustive",max_steps=200000000))
 c20.append(job("event-type-stable","aucoalesce","VH_EventTypeStable",["C20/"],{},Q,no_native=True,bounds="GetAuditEventType for a symbolic 16-bit record type: two calls agree, and the result is the same under insertion-order and reverse-order map iteration"))
+c20.append(job("arch-names","rule","VH_ArchNames",["C20/"],{},Q,expect=["C20/arch-name-accepted"],bounds="every architecture name of auparse.AuditArchNames as -F arch=NAME / arch!=NAME through Build: the value word is the table's code"))
 c20.append(job("norm-selection-record-types","aucoalesce","VH_NormSelection",["C20/"],{},Q,bounds="for every record type of the normalisation table: two events with independently chosen has_fields sets, then the first content again: action is one of a qualifying normalisation, and does not depend on what was processed before"))
 c20.append(job("norm-selection-syscalls","aucoalesce","VH_NormSelection",["C20/"],{"syscalls":1},Q,bounds="for every syscall name of the table (and an unlisted one): SYSCALL event, another SYSCALL event (4 choices), the first again: action is that syscall's (or the default's), independent of history"))
 C["C20"]={"jobs":c20,"assumptions":["tables are finite data: apart from the 16-bit record-type domain and the UNKNOWN[n] text path the check is a case split per entry, decided by evaluating the real lookups on the real tables (solver only prunes)"],
@@ -301,13 +304,13 @@ C["C14"]={"jobs":c14,"assumptions":PARSE_ASSUME[:2]+["hole bytes are ASCII and f
    "filter text is compared after trimming surrounding white space and ignoring white space between field and operator (a parser that trims is not faulted, one that drops non-blank text is)"],
    "outside":["lines with more than 4 flags","filter text longer than 6 symbolic bytes","other quoting styles (double quotes, backslashes) in the assembled line"]}
 
-PROGS=["pp|cm","pc|pm","pm|pc","pp|pc","pc|cp","cc|pp","mp|cm","pp|c|m","pc|p|c","p|p|c","ppp|cm","ppc|pm","m|pc","m|pp","mm|pc","m|p|c"]
+PROGS=["pp|cm","pc|pm","pm|pc","pp|pc","pc|cp","cc|pp","mp|cm","pp|c|m","pc|p|c","p|p|c","ppp|cm","ppc|pm","m|pc","m|pp","mm|pc","m|p|c","m|cc","pm|cc","mc|pc"]
 c11=[]
 for i,pg in enumerate(PROGS):
     nth=pg.count("|")+1
     long_=len(pg.replace("|",""))>4
     for re_,rn in [(0,"plain"),(1,"reenter-maintain"),(2,"reenter-close"),(3,"reenter-push")]:
-        quick = (nth==2 and not long_ and (re_==0 or i in (0,1)))
+        quick = (nth==2 and not long_ and (re_==0 or i in (0,1) or (i>=16 and re_==2)))
         pre = 2
         c11.append(job(f"prog{i}-{rn}",".","VH_Concurrent",["C11/"],{"program":i,"reenter":re_,"preemptions":pre,"maxInFlight":1,"types":2},Q if quick else T,no_native=True,
             bounds=f"threads {pg} (p=push of seq in {{5,6}} x type in {{1300,1327}}, m=Maintain, c=Close), callback {rn}; every interleaving at synchronisation operations with at most {pre} preemptions; race detection by vector clocks"))
@@ -343,6 +346,7 @@ c15.append(job("table-isolation","aucoalesce","VH_TableIsolation",["C15/"],{},Q,
 c15.append(job("resolve-isolation-hardcoded","aucoalesce","VH_ResolveIsolation",["C15/"],{"mode":0},Q,bounds="uid and gid with the same numbers and different names hard-coded through HardcodeUsers/HardcodeGroups in either order, then ResolveIDs: every *uid gets the user name, every *gid the group name"))
 c15.append(job("resolve-isolation-caches","aucoalesce","VH_ResolveIsolation",["C15/"],{"mode":1},Q,no_native=True,bounds="explicit user/group caches against a stub database where uid 1000/33 and gid 1000/33 have different names; 4 lookup histories (incl. lookups in an unrelated pair of caches) before ResolveIDsFromCaches"))
 c15.append(job("concurrent-2",  "aucoalesce","VH_ConcurrentResolve",["C15/"],{"threads":2,"preemptions":2},Q,no_native=True,bounds="2 goroutines, each coalescing its own (different) group and resolving IDs against shared user/group caches; every interleaving at synchronisation operations with at most 2 preemptions; race detection (heap cells and maps) by vector clocks; results equal the sequential ones"))
+c15.append(job("concurrent-2-expired",  "aucoalesce","VH_ConcurrentResolve",["C15/"],{"threads":2,"preemptions":2,"expired":1},Q,no_native=True,bounds="as concurrent-2 with caches whose entries are out of date as soon as they are stored (negative expiration): every lookup refreshes"))
 c15.append(job("concurrent-3",  "aucoalesce","VH_ConcurrentResolve",["C15/"],{"threads":3,"preemptions":2},T,no_native=True,bounds="3 goroutines, at most 2 preemptions"))
 C["C15"]={"jobs":c15,"assumptions":COAL_ASSUME,"outside":["arbitrary message text (C05 covers the parser's totality)","ResolveIDs against real user databases"]}
 
